@@ -55,6 +55,9 @@ def run_case(case):
     from vmon.simkit import decoy
     decoy(rng, lambda: gpio.Peripheral(pin_count=pins, addr_width=aw, data_width=dw, input_stages=stages))
     dut = gpio.Peripheral(pin_count=pins, addr_width=aw, data_width=dw, input_stages=stages)
+    from vmon.simkit import decoy_after
+    other = decoy_after(rng, lambda: gpio.Peripheral(pin_count=max(1, pins - 1), addr_width=aw + 1, data_width=dw,
+                                                     input_stages=(stages + rng.choice([1, 2, 3])) % 4))
     bus = dut.bus
     mon = Mon()
     widths = {"Mode": 2 * pins, "Input": pins, "Output": pins, "SetClr": 2 * pins}
